@@ -377,6 +377,10 @@ func registerFSStubs() {
 		delete(e.fsm().files, argStr(a[0]))
 		return nil
 	}
+	intrinsics["vfMkdir"] = func(e *Exec, fn *ssa.Function, a []Value) Value {
+		e.fsm().files[argStr(a[0])] = &MemFile{isDir: true}
+		return nil
+	}
 	intrinsics["vfFSMutations"] = func(e *Exec, fn *ssa.Function, a []Value) Value {
 		return e.ts.Const(64, uint64(len(e.fsm().log)))
 	}
